@@ -132,6 +132,21 @@ static void load_symbols (void) {
 	}
 	pclose (p);
 }
+/* address of a (possibly static) data symbol of the code under test, e.g. common.c's free_waiters */
+void *rt_data_sym (const char *name) {
+	char cmd[128], line[256];
+	FILE *p;
+	void *res = NULL;
+	snprintf (cmd, sizeof cmd, "nm -n /proc/%d/exe 2>/dev/null", (int) getpid ());
+	p = popen (cmd, "r");
+	if (!p) return NULL;
+	while (fgets (line, sizeof line, p)) {
+		unsigned long a; char ty; char nm[200];
+		if (sscanf (line, "%lx %c %199s", &a, &ty, nm) == 3 && strchr ("bBdD", ty) && strcmp (nm, name) == 0) { res = (void *) a; break; }
+	}
+	pclose (p);
+	return res;
+}
 const char *rt_fn_name (const void *pc, char *buf, size_t n) {
 	int lo = 0, hi = G->nsym - 1, best = -1;
 	uintptr_t a = (uintptr_t) pc;
@@ -799,6 +814,11 @@ void __real_nsync_waiter_free_ (void *w) __attribute__ ((weak));
 void *__wrap_nsync_waiter_new_ (void) { struct fiber *f = G->cur; void *w; if (f) f->noyield++; w = __real_nsync_waiter_new_ (); if (f) f->noyield--; return w; }
 void __wrap_nsync_waiter_free_ (void *w) { struct fiber *f = G->cur; if (f) f->noyield++; __real_nsync_waiter_free_ (w); if (f) f->noyield--; }
 void *rt_tls_waiter (int t) { return G->f[t].tls_waiter; }
+/* run the per-thread destructor of the calling fiber now, with its operations scheduled like any others (Pool.tla's wexit) */
+void rt_run_tls_dest_fine (void) {
+	struct fiber *f = G->cur;
+	if (f && f->tls_waiter && f->tls_dest) { void *w = f->tls_waiter; void (*d) (void *) = f->tls_dest; f->last_waiter = w; f->tls_waiter = NULL; d (w); }
+}
 int rt_stack_owner (const void *p) { int i; for (i = 0; i < G->nf; i++) if ((const char *) p >= G->f[i].stk && (const char *) p < G->f[i].stk + STK_SIZE) return i; return -1; }
 int rt_exit_is_step = 0;
 int rt_swc_region = 1;
